@@ -12,6 +12,7 @@ LEVEL_TEXT = ("Relational monitoring of four runs of the same input: parse under
               "equal trees; RAISE raises exactly when WARN logged; its exception carries the collected errors and renders at "
               "most max_errors; IMMEDIATE raises the first of them; error_level is restored; IGNORE/WARN/RAISE generate the "
               "same SQL; RAISE/IMMEDIATE raise UnsupportedError exactly when WARN logged a warning.")
+LEVEL_TEXT += (" Generation levels are also decided over every dialect's harvested statements written to rotating target dialects.")
 LEVEL_NOTE = "inputs on which the library raises an internal exception are C05's subject and are skipped here (counted)"
 TECHNIQUE = "runtime monitoring: relational oracle over four runs per input with log capture"
 RULE = ("valid, single-edit-mutated and multi-statement inputs x sampled dialects x max_errors in {1,3,10}; generated trees x "
